@@ -576,6 +576,8 @@ impl<M: Math, T: Transformation<M>> Hamiltonian<M> for TransformedHamiltonian<M,
                 end_idx_in_trajectory: None,
                 energy_error: None,
             };
+            #[cfg(nuts_rs_verif)]
+            verif_tap_failed(start.index_in_trajectory() + sign);
             collector.register_leapfrog(math, start, &out, Some(&div_info));
             return LeapfrogResult::Divergence(div_info);
         }
@@ -608,10 +610,14 @@ impl<M: Math, T: Transformation<M>> Hamiltonian<M> for TransformedHamiltonian<M,
                 end_idx_in_trajectory: Some(out.index_in_trajectory()),
                 energy_error: Some(energy_error),
             };
+            #[cfg(nuts_rs_verif)]
+            verif_tap(math, out.point(), false, true);
             collector.register_leapfrog(math, start, &out, Some(&divergence_info));
             return LeapfrogResult::Divergence(divergence_info);
         }
 
+        #[cfg(nuts_rs_verif)]
+        verif_tap(math, out.point(), false, false);
         collector.register_leapfrog(math, start, &out, None);
 
         LeapfrogResult::Ok(out)
@@ -736,6 +742,8 @@ impl<M: Math, T: Transformation<M>> Hamiltonian<M> for TransformedHamiltonian<M,
 
         point.index_in_trajectory = 0;
         point.initial_energy = point.energy();
+        #[cfg(nuts_rs_verif)]
+        verif_tap(math, point, true, false);
         Ok(())
     }
 
@@ -828,4 +836,53 @@ impl<M: Math, T: Transformation<M>> Hamiltonian<M> for TransformedHamiltonian<M,
 
         Ok(())
     }
+}
+
+/// Verification seam (off by default): report a state to the trajectory tap.
+#[cfg(nuts_rs_verif)]
+fn verif_tap<M: Math>(math: &mut M, point: &TransformedPoint<M>, start: bool, divergent: bool) {
+    if !crate::verif::tap_enabled() {
+        return;
+    }
+    crate::verif::tap_push(crate::verif::TapState {
+        start,
+        index: point.index_in_trajectory,
+        x: math.box_array(&point.untransformed_position).into_vec(),
+        gx: math.box_array(&point.untransformed_gradient).into_vec(),
+        y: math.box_array(&point.transformed_position).into_vec(),
+        gy: math.box_array(&point.transformed_gradient).into_vec(),
+        v: math.box_array(&point.velocity).into_vec(),
+        logp: point.logp,
+        logdet: point.logdet,
+        kinetic: point.kinetic_energy,
+        energy: point.energy(),
+        initial_energy: point.initial_energy,
+        transform_id: point.transform_id,
+        divergent,
+        failed: false,
+    });
+}
+
+#[cfg(nuts_rs_verif)]
+fn verif_tap_failed(index: i64) {
+    if !crate::verif::tap_enabled() {
+        return;
+    }
+    crate::verif::tap_push(crate::verif::TapState {
+        start: false,
+        index,
+        x: vec![],
+        gx: vec![],
+        y: vec![],
+        gy: vec![],
+        v: vec![],
+        logp: f64::NAN,
+        logdet: f64::NAN,
+        kinetic: f64::NAN,
+        energy: f64::NAN,
+        initial_energy: f64::NAN,
+        transform_id: -1,
+        divergent: true,
+        failed: true,
+    });
 }
